@@ -14,6 +14,8 @@ Definition config_extra : list string := ["Errors"; "AddProfile"; "AddOption"; "
 
 Definition LIFECYCLE : string :=
   "written only by Start / Stop style calls, which the API does not allow to overlap with each other or with a live session of the same endpoint (schedule class S0 of the endpoint model: a call is issued only when the previous Stop has run to its end); the goroutines that read it are started after the write".
+Definition PUBLISHED : string :=
+  "created by the handshake handler before the websocket is registered and before its routines are started (which are the only readers); closed exactly once, by that handler".
 Definition SINGLE : string := "closed exactly once, by the cleanup of the write routine; every other access is a receive".
 
 Definition mu_cd := "ocppj.DefaultClientDispatcher.mutex".
@@ -24,6 +26,10 @@ Definition exemptions : list (string * aspect * exemption) := [
   (* the connection pointer is cleared by cleanup, which only the write routine runs; that routine reads its own field unlocked *)
   ("ws.webSocket.connection", Ptr, Owner mu_ws ["ws.webSocket.writePump"; "ws.webSocket.writePump$local1"; "ws.webSocket.cleanup"]);
   ("ws.webSocket.doneC", Content, Pinned SINGLE [("ws.webSocket.cleanup", 4%Z, [])]);
+  ("ws.webSocket.announcedC", Ptr, Pinned PUBLISHED [
+      ("ws.server.wsHandler", 1%Z, [("ws.server.connMutex", 2%Z)]); ("ws.server.wsHandler", 4%Z, []);
+      ("ws.server.handleDisconnect", 0%Z, []); ("ws.server.handleDisconnect", 3%Z, [])]);
+  ("ws.webSocket.announcedC", Content, Pinned PUBLISHED [("ws.server.wsHandler", 4%Z, []); ("ws.server.handleDisconnect", 3%Z, [])]);
 
 
   (* stopC is only touched by the application's own lifecycle calls since the repair F33: the callback routine gets
